@@ -125,6 +125,45 @@ func scramble(v reflect.Value, depth int) int {
 	return n
 }
 
+// c12Aliased: a one-of that registers ONE member object under two keys, compared with a one-of whose members under
+// those keys differ (one compatible, one not). Whatever the verdict, it must not depend on the order in which a
+// map happens to be walked: 200 evaluations on fresh instances and 200 on one instance must all agree.
+func c12Aliased(c *wk.Ctx) {
+	prop := func(t schema.Type) *schema.PropertySchema {
+		return schema.NewPropertySchema(t, nil, true, nil, nil, nil, nil, nil)
+	}
+	consumer := func() schema.Type {
+		x := schema.NewObjectSchema("X", map[string]*schema.PropertySchema{"v": prop(schema.NewIntSchema(nil, nil, nil))})
+		return schema.NewOneOfStringSchema[any](map[string]schema.Object{"a": x, "b": x, "c": x}, "_type", false)
+	}
+	producer := func() schema.Type {
+		return schema.NewOneOfStringSchema[any](map[string]schema.Object{
+			"a": schema.NewObjectSchema("X", map[string]*schema.PropertySchema{"v": prop(schema.NewIntSchema(nil, nil, nil))}),
+			"b": schema.NewObjectSchema("X", map[string]*schema.PropertySchema{"v": prop(schema.NewStringSchema(nil, nil, nil))}),
+			"c": schema.NewObjectSchema("X", map[string]*schema.PropertySchema{"v": prop(schema.NewIntSchema(nil, nil, nil))})}, "_type", false)
+	}
+	verdicts := map[string]int{}
+	used, arg := consumer(), producer()
+	for rep := 0; rep < 400; rep++ {
+		a, b := used, arg
+		if rep%2 == 0 {
+			a, b = consumer(), producer()
+		}
+		var err error
+		if p, site, msg, _ := wk.Guard(func() { err = a.ValidateCompatibility(b) }); p {
+			c.Violation("C12:panic:ValidateCompatibility:"+site, "ValidateCompatibility panicked on the aliased one-of pair: "+msg, nil)
+			return
+		}
+		c.Count("probe_evaluations")
+		verdicts[fmt.Sprint(err == nil)]++
+	}
+	c.Eval(wk.Hash64("directed-aliased-one-of"), true)
+	if len(verdicts) > 1 {
+		c.Violation("C12:not-deterministic:ValidateCompatibility", fmt.Sprintf("400 evaluations of ValidateCompatibility on the same pair of schemas (a one-of with one member object under three keys, against a one-of whose second member is incompatible) disagree: %v accepted/rejected", verdicts),
+			map[string]any{"consumer": "one_of_string{a: X{v:int}, b: same object, c: same object}", "producer": "one_of_string{a: X{v:int}, b: X{v:string}, c: X{v:int}}", "verdicts": verdicts})
+	}
+}
+
 func runC12(c *wk.Ctx) {
 	c.Meta("rule", "per case: one generated shape built twice (a 'used' and a 'fresh' instance, each with its own self / twin / incompatible-mutant schema arguments); a probe set (valid inputs in random representations, perturbed and hostile inputs for Unserialize; natives for Validate/Serialize; data and schema arguments for ValidateCompatibility) is first evaluated on the fresh instance. The used instance then goes through a random history of 1..30 calls (accepted, rejected and default-filling ones, failing schema comparisons), with a deep snapshot of every argument before and after, and with every container reachable from every returned value overwritten in place. Afterwards each probe is evaluated 16 times on the used instance. Oracle: the argument snapshot is unchanged by the call and by scrambling the result; all 16 evaluations agree; they equal the fresh instance's outcome; SelfSerialize of the used scope equals that of the fresh one. distinct = hash(shape, history); non-trivial = history length >= 2")
 	c.Meta("assumptions", []string{"GetDefaults() is deliberately not compared (the SDK extends decoded sub-object defaults in place, which changes that accessor but neither the self-description nor behaviour)",
@@ -132,6 +171,10 @@ func runC12(c *wk.Ctx) {
 	c.Floor("probe_evaluations", 20000)
 	c.Floor("history_calls", 5000)
 	c.Floor("results_scrambled", 500)
+	if c.Mine(0) {
+		c.Begin(0, "directed: one member object under two one-of keys")
+		c12Aliased(c)
+	}
 	n := c.N(6000, 600000)
 	c.Cases(n, func(idx int64, r *wk.Rand) {
 		cfg := gen.Full()
